@@ -96,12 +96,14 @@ class TridonicDALIUSBDriver(DALIDriver):
     def construct(self, command):
         """Data expected by DALI USB:
 
-        dr sn ?? ty ?? ec ad cm .. .. .. .. .. .. .. ..
+        dr sn ct ty ?? ec ad cm .. .. .. .. .. .. .. ..
         12 1d 00 03 00 00 ff 08 00 00 00 00 00 00 00 00
 
         dr: direction
             0x12 = USB side
         sn: seqnum
+        ct: control
+            0x20 = send the frame twice
         ty: type
             0x03 = 16bit
             0x04 = 24bit
@@ -114,12 +116,13 @@ class TridonicDALIUSBDriver(DALIDriver):
         frame = command.frame
         ty = data = None
         ec = 0x0
+        ct = 0x20 if command.sendtwice else 0x0
         if len(frame) == 16:
             ty = DALI_USB_TYPE_16BIT
             ad, cm = frame.as_byte_sequence
             data = struct.pack(
                 "BBBBBBBB" + (64 - 8) * 'x',
-                dr, sn, 0x0, ty, 0x0, ec, ad, cm
+                dr, sn, ct, ty, 0x0, ec, ad, cm
             )
         elif len(frame) == 24:
             ty = DALI_USB_TYPE_24BIT
